@@ -21,8 +21,13 @@ def families(tier):
 
 
 def run(tier, v):
-    for name, it in families(tier):
-        cases, dropped = difftree.prefilter(list(it))
+    fams = list(families(tier)) + [("files that are not valid UTF-8 (9 byte patterns x 6 places) and contain unreferenced statements", spaces.invalid_utf8_files())]
+    for name, it in fams:
+        cases = list(it)
+        if cases and isinstance(cases[0][1], bytes):
+            dropped = 0          # byte-level cases cannot go through the in-process pre-filter (it takes text)
+        else:
+            cases, dropped = difftree.prefilter(cases)
         n = changed = 0
         for tr in difftree.run_trees(cases, steps=2):
             if tr.crashed:
